@@ -49,7 +49,9 @@ class W(World):
         return z3.And(z3.Length(v) == 1, pred(v))
 
     def int_of_str(self, I, s):
-        if I.ctx.branch(z3.Not(AllDec(s))):
+        # CPython: int(s) needs every character decimal AND (since 3.11) at most sys.get_int_max_str_digits() = 4300 digits
+        I.ctx.ghost['last_int_arg'] = s
+        if I.ctx.branch(z3.Or(z3.Not(AllDec(s)), z3.Length(s) > 4300)):
             raise I.exc('ValueError', 'invalid literal for int()')
         return I.ctx.fresh('int_value', 'int')
 
@@ -251,7 +253,13 @@ def u_Number(I):
         lambda I_, env: z3.Length(stream) - o.fields['sidx'])
     out = run_target(I, PARSER, 'Number.__call__', [o, output], self_obj=p)
     took = any(e[0] == 'take' for e in ctx.effects)
-    check_outcome(I, out, raises={'RINGSyntaxError': z3.BoolVal(not took)}, returns=lambda r: [
+    # a syntax error either before anything was consumed (no digit here) or for a digit run longer than int() converts (4300)
+    outv = None
+    if took and out.kind == 'raise':
+        from pyvc.engine import PathAbort
+        outv = ctx.ghost.get('last_int_arg')
+    too_long = (z3.Length(outv) > 4300) if outv is not None else z3.BoolVal(False)
+    check_outcome(I, out, raises={'RINGSyntaxError': z3.Or(z3.BoolVal(not took), too_long)}, returns=lambda r: [
         ('progress: a number consumes at least one character', o.fields['sidx'] >= sidx0 + 1),
         ('position invariant', pos_ok(o, stream))])
     return {'inputs': {}}
@@ -575,6 +583,22 @@ def standin_read(tier, seed):
               'rule r{reactant r1{C labeled c1 C labeled c2 single bond to c1} modify atomtype (c1, C)}',
               'rule r{reactant r1{C labeled c1 C labeled c2 single bond to c1} modify atomtype (c1, C.) modify atomtype (c2, C.) break bond (c1, c2)}',
               'fragment a{ C labeled c1 }\rgarbage', 'fragment a{ C labeled c1 }\x0cgarbage !!', 'fragment a{ C labeled c1 }\xa0x', 'fragment a{ C labeled c1 }\u2028{{{'}
+    # size and nesting: long atom chains, long constraint chains, many reactants / edits (right-recursive grammar rules and the recursive
+    # tree readers), digit strings longer than CPython converts by default, atom-type edits with a prefix
+    R_ = 'rule r{ reactant r1{ C labeled c1 C labeled c2 single bond to c1 } %s }'
+    for n_ in (150, 400):
+        texts.add('fragment a{ C labeled c1 ' + ' '.join('C labeled c%d single bond to c%d' % (i + 1, i) for i in range(1, n_)) + ' }')
+        texts.add('fragment a{ C labeled c1 {' + ', '.join(['connected to >0 H'] * n_) + '} }')
+        texts.add(R_ % ' '.join(['increase number of radical (c1) decrease number of radical (c1)'] * n_))
+    for big in ('1' * 4400, '9' * 10000):
+        texts.add(R_ % ('modify number of radical (c1, %s)' % big))
+        texts.add('fragment a{ C labeled c1 {connected to >%s H} }' % big)
+        texts.add('fragment a{ C labeled c1 {in ring of size %s} }' % big)
+        texts.add('fragment a{ C labeled c1 {in >%s ring} }' % big)
+        texts.add('fragment a{ C labeled c1 {has %s radical electrons} }' % big)
+    for pre in ('aromatic', 'nonaromatic', 'ringatom', 'nonringatom', 'allylic'):
+        texts.add(R_ % ('modify atomtype (c1, %s C)' % pre))
+        texts.add(R_ % ('modify atomtype (c1, %s C.)' % pre))
     counts, viol, seen, samples = {}, [], set(), []
     # accepted text must have been consumed in full: a complete fragment followed by any blank and text that cannot
     # continue it has to be rejected
